@@ -818,7 +818,11 @@ static htp_status_t htp_mpartp_handle_data(htp_mpartp_t *parser, const unsigned 
         }
 
         // Add part to the list.        
-        htp_list_push(parser->multipart.parts, parser->current_part);
+        if (htp_list_push(parser->multipart.parts, parser->current_part) != HTP_OK) {
+            htp_mpart_part_destroy(parser->current_part, parser->gave_up_data);
+            parser->current_part = NULL;
+            return HTP_ERROR;
+        }
 
         #ifdef HTP_DEBUG
         fprintf(stderr, "Created new part type %d\n", parser->current_part->type);
